@@ -137,13 +137,13 @@ def judge_run(F, h, run, kind):
             r = resolve(F, c[1]) if c[1] >= 0 else None
             if c[0] == 6:
                 if r is None:
-                    exp = [6]
+                    exp = [6] if c[1] >= 0 else [7]      # "-1" is not numeric: read as a routine name
                 else:
                     exp = ([[5, r[1]]] if r[1] > c[1] else []) + [[4, r[0], r[1]]]
                     active.append(r[0])
             else:
                 if r is None:
-                    exp = [10]
+                    exp = [10] if c[1] >= 0 else [11]
                 else:
                     pre = [[5, r[1]]] if r[1] > c[1] else []
                     if r[0] in active:
@@ -176,7 +176,9 @@ def judge_run(F, h, run, kind):
                               {'at': i, 'depth_before': ex['before']['depth'], 'depth_after': a[9]}))
         if c == 5:
             n0 = b[6]
-            stop = next((k for k in range(n0 + 1, N + 1) if pcs[k - 1] in active), None)
+            # the tick that finishes the program (tick N) is not a breakpoint stop: control does not
+            # reach the next statement (a hit reported there is the D25b symptom, judged at the end)
+            stop = next((k for k in range(n0 + 1, N) if pcs[k - 1] in active), None)
             exp_n = stop if stop is not None else N
             if a[6] != exp_n:
                 what = 'stopped-early' if a[6] < exp_n else 'ran-past-breakpoint'
@@ -262,7 +264,7 @@ def main(tier, seed):
     pl = [(p, lvl) for p in progs for lvl in LEVELS]
     fcases = [{'src': p[1], 'level': lvl, 'script': p[2]} for (p, lvl) in pl]
     t0 = time.time()
-    frees = vlib.run_impl('dbgfn.free', fcases)
+    frees = vlib.run_impl('dbgfn.free', fcases, par=4)
     ph['free_runs'] = round(time.time() - t0, 1)
     for (p, lvl), F in zip(pl, frees):
         if not isinstance(F, dict) or 'pcs' not in F or F.get('status') != 0:
@@ -289,7 +291,7 @@ def main(tier, seed):
             for _ in range(n4):
                 work.append((p, lvl, F, 'hist4s', [ctx.rng.choice(a11) for _ in range(4)]))
         for k in range(nlong):
-            work.append((p, lvl, F, 'long', long_history(p[0], lvl, k, [l1, l2, l3, 1, 0])))
+            work.append((p, lvl, F, 'long', long_history(p[0], lvl, k, [l1, l2, l3, 1, 0, -1])))
         work.append((p, lvl, F, 'stepall', [1] * (len(F['trace']) + 2)))
         ctx.bump(f'lines:{p[0]}-O{lvl}:{l1},{l2},{l3}')
     ctx.rule.append(
@@ -338,6 +340,7 @@ def main(tier, seed):
     ctx.extra['phase_seconds'] = ph
     t0 = time.time()
     nprop = {}
+    sampled = set()
     for (ch, raw), mo in zip(ok_chunks, mouts):
         if isinstance(mo, str) or len(mo) != len(ch):
             ctx.broken.append(f'correspondence T-dbg: model driver failed ({str(mo)[:100]})')
@@ -348,12 +351,20 @@ def main(tier, seed):
             ctx.count(kind, 1, [key])
             ctx.bump('len:%d' % len(h))
             fails = judge_run(F, h, run, kind)
+            new_failure = False
             for sig, info in fails:
                 info = dict(info)
                 info.update({'program': p[0], 'level': lvl, 'src': p[1], 'history': [ctext(c) for c in h],
                              'continues_appended': run['ncont']})
-                ctx.report(sig, info, True)
+                if ctx.report(sig, info, True) == 'violation':
+                    new_failure = True
                 nprop[sig] = nprop.get(sig, 0) + 1
+            if kind not in sampled:
+                sampled.add(kind)
+                ctx.sample({'suite': kind, 'program': p[0], 'level': lvl, 'src': p[1],
+                            'history': [ctext(c) for c in h], 'continues_appended': run['ncont'],
+                            'snapshot_after_start': run['start'], 'snapshots': run['snaps'][:6],
+                            'free_run_ticks': F['n'], 'property_failures': [s for s, _ in fails]})
             impl = [run['start'], run['snaps'], run['final']]
             if (isinstance(m1, list) and len(m1) == 3 and impl[1] and impl[1][-1][0] != 0
                     and len(m1[1]) > len(impl[1])
@@ -369,11 +380,11 @@ def main(tier, seed):
                             'at': at, 'impl': impl[1][at - 1] if 0 < at <= len(impl[1]) else impl[0],
                             'model': (m1[1][at - 1] if 0 < at <= len(m1[1]) else m1[0]) if isinstance(m1, list) and len(m1) == 3 else m1,
                             'property_failures_on_this_run': [s for s, _ in fails]},
-                           bool(fails))
+                           new_failure)
     ph['judging'] = round(time.time() - t0, 1)
     ctx.extra['property_failure_signatures'] = nprop
-    ctx.sample({'suite': 'hist3', 'program': progs[10][0], 'history': 'next next continue',
-                'src': progs[10][1]})
+    ctx.extra['programs'] = len(pl)
+    ctx.extra['traces_validated_against_impl'] = sum(len(ch) for ch, _ in ok_chunks)
     return ctx.finish('T-dbg: real qvm.dbg.Cmd vs extracted Models/Debugger.v; property judged directly '
                       'against a free run of the same module')
 
